@@ -6,7 +6,8 @@ import sqlalchemy
 from sqlalchemy import sql
 
 import forml
-from forml import project
+from forml import flow, io, project
+from forml.io import layout
 from forml.io import dsl
 from forml.io._input import extract as extmod
 from forml.provider.feed.reader import alchemy
@@ -40,6 +41,54 @@ def _sqlval(kind, value):
     return value
 
 
+class _Feed(io.Feed):
+    """Minimal feed over one sqlite table: the producer parses the statement the drivers hand over with the real
+    alchemy parser and executes it."""
+
+    def __init__(self, tab, conn, data):
+        super().__init__()
+        self._tab, self._conn, self._data = tab, conn, data
+        self.statements = []
+
+    @property
+    def sources(self):
+        return {self._tab: sql.table(sql.quoted_name('t', quote=True))}
+
+    def producer(self, sources, features, **kwargs):  # pylint: disable=arguments-differ
+        def produce(statement, entry=None):
+            self.statements.append(statement)
+            parser = alchemy.Parser(sources, features)
+            with parser:
+                statement.accept(parser)
+                code = parser.fetch()
+            got = [r[0] for r in self._conn.execute(code).fetchall()]
+            rows = sorted(self._data[i] for i in got)
+            return layout.Dense.from_rows([[v] for v in rows]) if rows else layout.Dense.from_rows([[None]]).take_rows([])
+
+        return produce
+
+
+class _Workers(flow.Visitor):
+    def __init__(self):
+        self.nodes = []
+
+    def visit_node(self, node):
+        if isinstance(node, flow.Worker):
+            self.nodes.append(node)
+
+
+def _run(segment):
+    """Build and fire the driver actor of an extraction segment (its single head worker)."""
+    visitor = _Workers()
+    segment.accept(visitor)
+    return [r[0] for r in visitor.nodes[0].builder().apply()]
+
+
+def _load(feed, extract, lo, hi):
+    trunk = feed.load(extract, lo, hi).compose(flow.Origin())
+    return {'train': trunk.train, 'apply': trunk.apply}
+
+
 def windows(case):
     kind = case['kind']
     tab = table(kind)
@@ -50,34 +99,20 @@ def windows(case):
         conn.execute(sql.text(f'CREATE TABLE "t" (rid INTEGER, ord {ctype})'))
         for i, z in enumerate(case['data']):
             conn.execute(sql.text('INSERT INTO "t" VALUES (:r, :o)'), {'r': i, 'o': _sqlval(kind, embed(kind, z))})
-        rows = []
+        feed = _Feed(tab, conn, case['data'])
+        rows = {'train': [], 'apply': []}
         for lo, hi in zip(case['bounds'], case['bounds'][1:]):
-            stmt = extmod.Statement.prepare(
-                source.extract.train,
-                source.extract.ordinal,
-                None if lo is None else embed(kind, lo),
-                None if hi is None else embed(kind, hi),
-            )()
-            parser = alchemy.Parser({tab: sql.table(sql.quoted_name('t', quote=True))}, {})
-            with parser:
-                stmt.accept(parser)
-                code = parser.fetch()
-            got = [r[0] for r in conn.execute(code).fetchall()]
-            rows.append(sorted(case['data'][i] for i in got))
+            segments = _load(
+                feed, source.extract, None if lo is None else embed(kind, lo), None if hi is None else embed(kind, hi)
+            )
+            for mode, segment in segments.items():
+                rows[mode].append(_run(segment))
     return {'sem': repr(source.extract.ordinal.once), 'rows': rows}
 
 
-def prepared(case):
-    tab = table('integer')
-    base = tab.select(tab.rid, tab.ord)
-    ordinal = project.Source.Extract.Ordinal(tab.ord, None) if case['ordinal'] else None
-    try:
-        stmt = extmod.Statement.prepare(base, ordinal, case['lo'], case['hi'])()
-    except forml.UnexpectedError:
-        return {'verdict': 'refused'}
+def _bounds_of(stmt):
     if stmt.prefilter is None:
         return {'verdict': 'unfiltered'}
-    # read the bounds back from the predicate the real code built
     lo = hi = None
     terms = []
 
@@ -96,6 +131,26 @@ def prepared(case):
         else:
             hi = value
     return {'verdict': 'filtered', 'lo': lo, 'hi': hi}
+
+
+def prepared(case):
+    """Bounds handed to Feed.load for a source with / without ordinal: what each mode's driver ends up executing."""
+    tab = table('integer')
+    source = project.Source.query(tab.select(tab.rid, tab.ord), ordinal=tab.ord if case['ordinal'] else None)
+    engine = sqlalchemy.create_engine('sqlite://')
+    out = {}
+    with engine.connect() as conn:
+        conn.execute(sql.text('CREATE TABLE "t" (rid INTEGER, ord INTEGER)'))
+        feed = _Feed(tab, conn, [])
+        for mode, segment in _load(feed, source.extract, case['lo'], case['hi']).items():
+            feed.statements.clear()
+            try:
+                _run(segment)
+            except forml.UnexpectedError:
+                out[mode] = {'verdict': 'refused'}
+                continue
+            out[mode] = _bounds_of(feed.statements[-1])
+    return out
 
 
 class _Stop(Exception):
